@@ -2,6 +2,7 @@ package vsched
 
 import (
 	"runtime"
+	"syscall"
 	"time"
 	"unsafe"
 )
@@ -196,10 +197,10 @@ func Run(guard time.Duration) (hung bool) {
 		s.threads[i].op = op{kind: KUser, label: "start"}
 	}
 	schedule()
-	start := time.Now()
+	start := cpuNow()
 	for spins := 0; turn != -1; spins++ {
 		runtime.Gosched()
-		if spins&1023 == 1023 && time.Since(start) > guard {
+		if spins&1023 == 1023 && cpuNow()-start > guard {
 			abort = true
 			Active = false
 			return true
@@ -236,10 +237,10 @@ func Resume(guard time.Duration) (hung bool) {
 	s.cur = -1
 	Active = true
 	schedule()
-	start := time.Now()
+	start := cpuNow()
 	for spins := 0; turn != -1; spins++ {
 		runtime.Gosched()
-		if spins&1023 == 1023 && time.Since(start) > guard {
+		if spins&1023 == 1023 && cpuNow()-start > guard {
 			abort = true
 			Active = false
 			return true
@@ -796,4 +797,18 @@ func KindName(k Kind) string {
 	default:
 		return "op"
 	}
+}
+
+// cpuNow is the CPU time (user + system) this process has used. The guards of Run and Resume
+// count CPU time, not wall-clock time: the spinning scheduler loop burns CPU whenever the
+// process runs, so a thread that never reaches its next scheduling point is still noticed,
+// while a machine that is merely overloaded can never turn into a verdict.
+//
+//go:norace
+func cpuNow() time.Duration {
+	var ru syscall.Rusage
+	if err := syscall.Getrusage(syscall.RUSAGE_SELF, &ru); err != nil {
+		return time.Duration(time.Now().UnixNano())
+	}
+	return time.Duration(ru.Utime.Nano() + ru.Stime.Nano())
 }
